@@ -70,6 +70,9 @@ func runC12(t *testing.T, c *choice.Stream, r *Result, opt RunOpt) {
 func runRaceQuery(t *testing.T, c *choice.Stream, r *Result, opt RunOpt) {
 	Bubble(t, c, r, opt, func(e *Env) func() {
 		cf := DrawConf(c)
+		if cf.ReadTimeout < 0 {
+			cf.ReadTimeout = 0 // the disturbances here are placed by decision count, which needs the client's timers to keep decisions coming
+		}
 		sc := drawQueryScenario(c, cf)
 		e.Sim.DrawStrategy()
 		e.Sim.StallProb = 0
